@@ -1097,3 +1097,21 @@ pub fn verif_p2_page<S: NotGiantPageSize>(page: Page<S>, recursive_index: PageTa
 pub fn verif_p1_page(page: Page<Size4KiB>, recursive_index: PageTableIndex) -> Page {
     p1_page(page, recursive_index)
 }
+
+/// Verification hook (only with `--cfg x86_64_verif`): the pointer to the level 3 table used for `page`.
+#[cfg(x86_64_verif)]
+pub fn verif_p3_ptr<S: PageSize>(page: Page<S>, recursive_index: PageTableIndex) -> *mut PageTable {
+    p3_ptr(page, recursive_index)
+}
+
+/// Verification hook (only with `--cfg x86_64_verif`): the pointer to the level 2 table used for `page`.
+#[cfg(x86_64_verif)]
+pub fn verif_p2_ptr<S: NotGiantPageSize>(page: Page<S>, recursive_index: PageTableIndex) -> *mut PageTable {
+    p2_ptr(page, recursive_index)
+}
+
+/// Verification hook (only with `--cfg x86_64_verif`): the pointer to the level 1 table used for `page`.
+#[cfg(x86_64_verif)]
+pub fn verif_p1_ptr(page: Page<Size4KiB>, recursive_index: PageTableIndex) -> *mut PageTable {
+    p1_ptr(page, recursive_index)
+}
